@@ -316,6 +316,25 @@ def check(P, R):
 
     f = P.func(f'{RR}:Route.url')
     g, rd = f.cfg, f.rd
+    # shape-independent first: the URL is assembled in an object of this call (a route is shared by all requests, and a build that is rejected half-way
+    # must leave nothing behind)
+    for r_ in [n for n in g.nodes if n.kind == 'stmt' and isinstance(n.ast, ast.Return) and n.ast.value is not None]:
+        joins = [x for x in rd.closure_nodes(r_.ast.value, r_) if isinstance(x, ast.Call) and call_attr(x) == 'join' and x.args and isinstance(x.args[0], ast.Name)]
+        for j in joins:
+            acc = j.args[0].id
+            jn = g.node_of_stmt(j)[0]
+            defs = rd.root_defs(jn, acc)
+            shared = [d for d in defs if d.value is not None and isinstance(d.value, (ast.Attribute, ast.Name, ast.Subscript)) and not rd.is_local(getattr(d.value, 'id', ''))]
+            fresh = bool(defs) and not shared and all(d.value is not None and (isinstance(d.value, (ast.List, ast.ListComp)) or
+                                                                          (isinstance(d.value, ast.Call) and dotted(d.value.func) in ('list', 'collections.deque', 'deque'))) for d in defs)
+            if not fresh and not shared:
+                R.undecided('C19.c', f, j, 'Route.url', f'the accumulator `{acc}` is neither a fresh list nor an object kept outside the call')
+                continue
+            R.ob('C19.c', f, j, fresh, text=f'`{short(j)}`: the parts are collected in a list created by this call', detail='' if fresh else
+                 f'the parts are collected in `{short(shared[0].value)}`, an object that outlives the call: a build that is rejected after some parts were emitted (missing '
+                 f'keyword, value refused by its filter) leaves them there and the next - valid - build is prefixed with them; two requests building from the same '
+                 f'route interleave their parts',
+                 why='the URL built from a matched assignment matches the same rule again', key_extra='fresh-accumulator')
     # ---- a
     ff = P.cls(f'{FF}:FilterFactory')
     table = ff.attrs.get('filters')
